@@ -6,11 +6,13 @@
 //   /var/tmp/c10_repro 1      # dstep-table: fit on a categorical feature without any given value      -> SIGSEGV
 //   /var/tmp/c10_repro 2      # dtree (depth 2): predict() of a single sample                           -> SIGSEGV
 //   /var/tmp/c10_repro 3      # kbest-table: fit reports RSS ~0, its predictions are all zero (RSS 53)   (outside C10)
+//   /var/tmp/c10_repro 4      # affine on a CONSTANT feature: neither skipped nor fitted with the best constant (rounding noise decides)
 #include <cstdio>
 #include <cstdlib>
 #include <nano/dataset.h>
 #include <nano/datasource.h>
 #include <nano/generator/elemwise_identity.h>
+#include <nano/wlearner/affine.h>
 #include <nano/wlearner/criterion.h>
 #include <nano/wlearner/dtree.h>
 #include <nano/wlearner/table.h>
@@ -55,10 +57,85 @@ private:
     bool m_sclass_given{true};
 };
 
+// n samples, one float64 feature with the same value c everywhere, scalar target
+class constant_source_t final : public datasource_t
+{
+public:
+    constant_source_t(double c, tensor_size_t n)
+        : datasource_t("repro-constant")
+        , m_c(c)
+        , m_n(n)
+    {
+    }
+
+    rdatasource_t clone() const override { return std::make_unique<constant_source_t>(*this); }
+
+private:
+    void do_load() override
+    {
+        features_t features;
+        features.push_back(feature_t{"f0"}.scalar(feature_type::float64));
+        features.push_back(feature_t{"target"}.scalar(feature_type::float64));
+        resize(m_n, features, 1U);
+        for (tensor_size_t i = 0; i < m_n; ++i)
+        {
+            set(i, 0, m_c);
+            set(i, 1, 0.0);
+        }
+    }
+
+    double        m_c{0};
+    tensor_size_t m_n{0};
+};
+
+static void affine_on_constant_feature()
+{
+    const double g[] = {0.5, -1, 2, 0.3, -0.7, 1.5, -2, 0.1};
+    for (const double c : {0.1, 0.7, 2.7})
+    {
+        for (const tensor_size_t n : {3, 5, 6, 8})
+        {
+            auto source = constant_source_t{c, n};
+            source.load();
+            auto dataset = dataset_t{source, size_t{1}};
+            dataset.add<scalar_identity_generator_t>();
+            auto   grads = tensor4d_t{n, 1, 1, 1};
+            double mean = 0.0, rss_constant = 0.0, rss_zero = 0.0;
+            for (tensor_size_t i = 0; i < n; ++i)
+            {
+                grads(i) = g[i];
+                mean -= g[i] / static_cast<double>(n);
+            }
+            for (tensor_size_t i = 0; i < n; ++i)
+            {
+                rss_constant += (-g[i] - mean) * (-g[i] - mean);
+                rss_zero += g[i] * g[i];
+            }
+            auto wlearner                             = affine_wlearner_t{};
+            wlearner.parameter("wlearner::criterion") = wlearner_criterion::rss;
+            const auto score                          = wlearner.fit(dataset, arange(0, n), grads);
+            if (score == wlearner_t::no_fit_score())
+            {
+                std::printf("affine, feature == %g for all %d samples: feature skipped (no fit); best constant has RSS %.6g\n", c, static_cast<int>(n), rss_constant);
+            }
+            else
+            {
+                std::printf("affine, feature == %g for all %d samples: score %.6g (w=%g b=%g); best constant has RSS %.6g, predicting zero %.6g\n", c,
+                            static_cast<int>(n), score, wlearner.tables()(0), wlearner.tables()(1), rss_constant, rss_zero);
+            }
+        }
+    }
+}
+
 int main(int argc, char** argv)
 {
     const int which = argc > 1 ? std::atoi(argv[1]) : 1;
     std::setvbuf(stdout, nullptr, _IONBF, 0);
+    if (which == 4)
+    {
+        affine_on_constant_feature();
+        return 0;
+    }
 
     auto source = source_t{which != 1};
     source.load();
